@@ -92,6 +92,9 @@ def run(spec, rec):
         for ci in range(spec["n"]):
             rng = rng_for(seed, "C09fold", spec["b"], ci)
             fs = _spectrum(rng, dadi)
+            if spec["b"] == 0 and ci < 4:
+                # populations with more than 255 chromosomes (allele counts that do not fit a byte)
+                fs = _spectrum(rng, dadi, shape=[(301,), (300,), (261, 4), (3, 280, 2)][ci])
             shape = fs.shape
             p = float(rng.choice([0.0, 1.0, rng.uniform(), rng.uniform()]))
             desc = {"shape": list(shape), "nmasked": int(fs.mask.sum()), "even": sum(s - 1 for s in shape) % 2 == 0,
